@@ -19,8 +19,9 @@ LEVEL = 'exploration'
 LEVEL_TEXT = ('Runtime check on the real code: (1) Linen modules whose params / mutable variables are boxed with with_partitioning / '
               'with_logical_partitioning (ranks 1-3, every stacking axis k in [-(rank+1), rank]) are initialised and applied under nn.scan, '
               'nn.vmap, scan-inside-vmap and vmap-inside-scan with metadata_params, NNX modules with `sharding` metadata are created and run '
-              'under nnx.vmap / nnx.scan (and both nestings) with transform_metadata and StateAxes or plain int axes, and the deprecated '
-              'partitioning.scan_with_axes / vmap_with_axes API is run for k >= 0; every returned leaf, every variable the '
+              'under nnx.vmap / nnx.scan (and both nestings) with transform_metadata and StateAxes or plain int axes, StateAxes mixing stacked, carried and '
+              'broadcast filters in every order, and the deprecated '
+              'partitioning.scan_with_axes / vmap_with_axes API is run for every k; every returned leaf, every variable the '
               'body sees and every add_axis/remove_axis hook event is compared with a list-insert reference and with a size-based alignment '
               'oracle; the same programs are run with unboxed variables and must agree. (2) get_partition_spec of both APIs on all name '
               'tuples of length <= 3. (3) logical_to_mesh_axes on ALL rule lists of length <= 4 over 3 logical names x (3 mesh axes + None) '
@@ -805,6 +806,128 @@ def run_nnx_case(ctx, d):
 
 
 # ---------------------------------------------------------------------------------------------
+# NNX StateAxes that mix stacked (integer axis) states with carried / broadcast states, in every filter order: nnx.scan keeps only
+# the stacked states inside its NodeStates, so name removal/insertion must still pair each of them with *its own* axis.
+
+
+def nnx_mixed_cases(ctx):
+  quick = ctx.tier == 'quick'
+  out = []
+  n = 140 if quick else 900
+  for i in range(n):
+    rng = ctx.rng('nnx.mixed', i)
+    kind = ['scan', 'scan', 'vmap'][i % 3]
+    entries = []
+    # stacked entries: one or two Variable types with their own rank / axis
+    n_vec = 1 + (i // 3) % 2
+    for t in ['Param', 'Cache'][:n_vec]:
+      r = rng.choice([1, 2, 2, 3])
+      names = pick_names(rng, r)
+      entries.append(dict(type=t, attr=t.lower(), mode='axis', k=rng.choice(axis_range(r, rng.random() < 0.3)), names=names, shape=shape_of(names)))
+    # non-stacked entries: carried (scan only) and/or broadcast
+    modes = [['carry'], ['bcast'], ['carry', 'bcast']][(i // 6) % 3] if kind == 'scan' else [['bcast'], ['bcast', 'bcast2']][(i // 6) % 2]
+    for mode, t in zip(modes, ['BatchStat', 'Intermediate']):
+      r = rng.choice([0, 1, 2])
+      names = pick_names(rng, r)
+      entries.append(dict(type=t, attr=t.lower(), mode='carry' if mode == 'carry' else 'bcast', k=None, names=names, shape=shape_of(names)))
+    order = list(range(len(entries)))
+    rng.shuffle(order)
+    if i % 4 == 0:  # a non-stacked filter first: the order in which pairing by position goes wrong
+      order.sort(key=lambda j: entries[j]['mode'] == 'axis')
+    out.append(dict(kind=kind, entries=[entries[j] for j in order], annotate_nonstacked=rng.random() < 0.8))
+  return out
+
+
+def run_nnx_mixed_case(ctx, d):
+  from flax import nnx
+  import jax.numpy as jnp
+  L = LEN[P1]
+  types = dict(Param=nnx.Param, Cache=nnx.Cache, BatchStat=nnx.BatchStat, Intermediate=nnx.Intermediate)
+
+  def lin(shape):
+    n = int(np.prod(shape)) if shape else 1
+    return jnp.asarray(((np.arange(n) % 5) - 2.0).reshape(shape) / 4.0, jnp.float32)
+
+  class Mix(nnx.Module):
+    pass
+
+  def build(boxed):
+    m = Mix()
+    for e in d['entries']:
+      if e['mode'] == 'axis':
+        shape, names = shape_insert(e['shape'], e['k'], L), ref_insert(e['names'], e['k'], P1)
+      else:
+        shape, names = e['shape'], e['names']
+      kw = dict(sharding=tuple(names)) if boxed and (e['mode'] == 'axis' or d['annotate_nonstacked']) else {}
+      setattr(m, e['attr'], types[e['type']](lin(shape) + (0.25 if e['mode'] == 'axis' else 0.0), **kw))
+    return m
+
+  def axis_of(e):
+    return e['k'] if e['mode'] == 'axis' else (nnx.Carry if e['mode'] == 'carry' else None)
+
+  sa = nnx.StateAxes({types[e['type']]: axis_of(e) for e in d['entries']})
+  tm = {nnx.PARTITION_NAME: P1}
+
+  def body(m, x):
+    y = x
+    for e in d['entries']:
+      var = getattr(m, e['attr'])
+      sh = var.get_metadata().get('sharding')
+      SEEN.append((e['attr'], None if sh is None else tuple(sh), tuple(np.shape(var.value))))
+      y = y + jnp.sum(var.value * lin(e['shape']))
+      if e['mode'] == 'carry':
+        var.value = var.value + 1.0
+    return y
+
+  def program(m):
+    x0 = jnp.asarray(0.5, jnp.float32)
+    if d['kind'] == 'scan':
+      return nnx.scan(body, in_axes=(sa, nnx.Carry), out_axes=nnx.Carry, transform_metadata=tm)(m, x0)
+    return nnx.vmap(body, in_axes=(sa, None), out_axes=0, transform_metadata=tm)(m, x0)
+
+  def check_module(m, where, boxed):
+    for e in d['entries']:
+      var = getattr(m, e['attr'])
+      sh = var.get_metadata().get('sharding')
+      gshape = tuple(np.shape(var.value))
+      if e['mode'] == 'axis':
+        wn, ws = ref_insert(e['names'], e['k'], P1), shape_insert(e['shape'], e['k'], L)
+      else:
+        wn, ws = tuple(e['names']), tuple(e['shape'])
+      annotated = boxed and (e['mode'] == 'axis' or d['annotate_nonstacked'])
+      ctx.check(gshape == ws and (tuple(sh) == wn if annotated else sh is None) and (not annotated or aligned_by_size(tuple(sh), gshape)),
+                'nnx.align:mixed_state_axes', lambda: dict(where=where, var=e['attr'], mode=e['mode'], want=(wn, ws), got=(sh, gshape)))
+
+  del LOG[:], SEEN[:]
+  ctx.op('nnx.%s(mixed StateAxes)' % d['kind'])
+  m = build(True)
+  y = program(m)
+  seen, SEEN[:] = list(SEEN), []
+  ctx.check(bool(seen), 'nnx.body_names:mixed_state_axes', lambda: dict(error='body never ran'))
+  for attr, sh, shape in seen:
+    e = [e for e in d['entries'] if e['attr'] == attr][0]
+    annotated = e['mode'] == 'axis' or d['annotate_nonstacked']
+    want = (tuple(e['names']) if annotated else None, tuple(e['shape']))
+    ctx.check((sh, shape) == want, 'nnx.body_names:mixed_state_axes',
+              lambda: dict(var=attr, mode=e['mode'], axis=e['k'], filter_order=[(x['type'], x['mode'], x['k']) for x in d['entries']], want=want, seen=(sh, shape)))
+  check_module(m, 'after', True)
+  counts = drain_hooks(ctx, 'nnx', True)
+  n_vec = sum(1 for e in d['entries'] if e['mode'] == 'axis')
+  ctx.check(counts.get('nnx.remove', 0) >= n_vec and counts.get('nnx.add', 0) >= n_vec, 'hook.nnx.remove_axis:not_called',
+            lambda: dict(where='mixed', counts=counts, stacked=n_vec))
+  # boxed vs raw
+  rm = build(False)
+  ry = program(rm)
+  del SEEN[:]
+  check_module(rm, 'raw', False)
+  ctx.check(close(y, ry), 'boxed_vs_raw:nnx.forward', lambda: dict(boxed=np.asarray(y).tolist(), raw=np.asarray(ry).tolist()))
+  import jax
+  ctx.check(close(jax.tree.leaves(nnx.state(m)), jax.tree.leaves(nnx.state(rm))), 'boxed_vs_raw:nnx.state', None)
+  drain_hooks(ctx, 'nnx', True)
+  del LOG[:], SEEN[:]
+
+
+# ---------------------------------------------------------------------------------------------
 # legacy (deprecated) logical-axes API of flax/linen/partitioning.py: param_with_axes / variable_with_axes keep the names in a
 # parallel '<collection>_axes' collection; scan_with_axes / vmap_with_axes insert `axis_name` at the stacking position.
 
@@ -1336,6 +1459,10 @@ def run(ctx):
     d = nnx_descriptor(ctx, i, case)
     with ctx.case('nnx', i, d, nontrivial=True, allow=(CaseAbort,)):
       run_nnx_case(ctx, d)
+    del LOG[:], SEEN[:]
+  for i, d in ctx.items(nnx_mixed_cases(ctx), 'nnx.mixed'):
+    with ctx.case('nnx.mixed', i, d, nontrivial=True, allow=(CaseAbort,)):
+      run_nnx_mixed_case(ctx, d)
     del LOG[:], SEEN[:]
   ctx.extra['t_nnx'] = time.time() - t0
   t0 = time.time()
